@@ -153,11 +153,11 @@ def judge_boot(ctx, dgs, image, options, vals_time, structs, where):
           repr({d[0] for d in dec}), **where)
     n_blocks = len(dec) - 2
     ver, cmd, args, body, blen = dec[0]
-    check(cmd == 1 and not blen and args[2] == n_blocks - 1,
+    check(cmd == 1 and not blen and tuple(args) == (0, 0, n_blocks - 1),
           "start-datagram", "command %d args %r for %d blocks" %
           (cmd, args, n_blocks), **where)
     ver, cmd, args, body, blen = dec[-1]
-    check(cmd == 5 and args[0] == 1 and not blen, "end-datagram",
+    check(cmd == 5 and tuple(args) == (1, 0, 0) and not blen, "end-datagram",
           "command %d args %r" % (cmd, args), **where)
     data = b""
     for i, (ver, cmd, args, body, blen) in enumerate(dec[1:-1]):
@@ -170,6 +170,11 @@ def judge_boot(ctx, dgs, image, options, vals_time, structs, where):
         check((args[0] >> 8) & 0xff >= blen // 4 - 1, "block-word-count",
               "block %d announces %d words, carries %d" %
               (i, ((args[0] >> 8) & 0xff) + 1, blen // 4), **where)
+        check(args[0] >> 16 == 0 and args[1] == 0 and args[2] == 0,
+              "block-argument-stray-bits",
+              "block %d: arguments %r (the first holds word count - 1 in "
+              "bits 8-15 and the block number in bits 0-7, the others are "
+              "zero)" % (i, [hex(a) for a in args]), **where)
         data += body
     if n_blocks > 1:
         ctx.hit("multi_block_image")
